@@ -447,22 +447,39 @@ impl Python {
             .map_err(|e| std::io::Error::new(std::io::ErrorKind::Other, e))?;
         let python_field_name = python_property_aware_rename(&field.id.original);
         let is_aliased = python_field_name != field.id.renamed;
-        let custom_translations = json_translation_for_type(&python_type);
+        // The translation belongs to the type under the optional marker: `Option<T>` is `Optional[T]`.
+        let mut translated_type = python_type.as_str();
+        while let Some(inner) = translated_type
+            .strip_prefix("Optional[")
+            .and_then(|inner| inner.strip_suffix(']'))
+        {
+            translated_type = inner;
+        }
+        let translated_type = translated_type.to_string();
+        let custom_translations = json_translation_for_type(&translated_type);
         // Adds all the required imports needed based off whether its optional ,aliased, or needs a byte translation
         self.add_common_imports(is_optional, custom_translations.is_some(), is_aliased);
 
-        let mut field_type = python_type;
+        let mut field_type = python_type.clone();
 
         if not_optional_but_default {
             field_type = format!("Optional[{field_type}]");
         }
         if let Some(custom_translation) = custom_translations {
+            // the helper functions are emitted per translated type name
             self.types_for_custom_json_translation
-                .insert(field_type.clone());
-            field_type = format!(
-                "Annotated[{field_type}, BeforeValidator({}), PlainSerializer({})]",
-                custom_translation.deserialization_name, custom_translation.serialization_name
-            );
+                .insert(translated_type.clone());
+            if translated_type != python_type {
+                field_type = format!(
+                    "Optional[Annotated[{translated_type}, BeforeValidator({}), PlainSerializer({})]]",
+                    custom_translation.deserialization_name, custom_translation.serialization_name
+                );
+            } else {
+                field_type = format!(
+                    "Annotated[{field_type}, BeforeValidator({}), PlainSerializer({})]",
+                    custom_translation.deserialization_name, custom_translation.serialization_name
+                );
+            }
         }
 
         let mut decorators: Vec<String> = Vec::new();
